@@ -79,7 +79,7 @@ def run(ctx):
     r1 = ctx.rule("C06.R1", "TABLE: get_test_stat maps 'q0'->q0, 'q'->qmu, 'qtilde'->qmu_tilde (the functions of test_statistics) and raises InvalidTestStatistic otherwise", "TABLE", floor=4)
     want = {"q0": "q0", "q": "qmu", "qtilde": "qmu_tilde"}
     table = None
-    for n in ast.walk(gts.node):
+    for n in repo.walk_with_tables(gts):
         if isinstance(n, ast.Dict) and n.keys and all(isinstance(A.const_value(k), str) for k in n.keys):
             table = n
     if table is None:
